@@ -12,6 +12,7 @@ package main
 import (
 	"context"
 	"fmt"
+	"os"
 	"sort"
 	"strings"
 	"time"
@@ -245,11 +246,24 @@ type hctx struct {
 	pendingNames []pendingNames
 }
 
+// visibleClock (thorough tier; inherited by the worker processes through the environment)
+// makes the call / return instants of the recorded history scheduling-visible events. In the
+// quick tier the sleep-set runs keep one representative per trace of the synchronisation
+// operations only; the unreduced bounded runs next to them do not depend on this.
+var visibleClock = os.Getenv("C07_VISIBLE_CLOCK") != ""
+
 func (h *hctx) tick() int64 {
 	if h.native {
 		// free-running companion: no history (a shared clock would order the calls
 		// for the race detector and hide races between them)
 		return 0
+	}
+	// call / return instants are VISIBLE events: they conflict with each other, so the
+	// sleep-set reduction keeps one representative per real-time order of the calls (the
+	// linearizability oracle depends on that order, not only on the order of the
+	// synchronisation operations)
+	if visibleClock && vrt.Active() {
+		vrt.Access("c07-clock")
 	}
 	h.clock++
 	return h.clock
